@@ -51,4 +51,23 @@ theorem con_iter_in_place (len a b : Nat) (s : St) :
 theorem into_con_iter_consuming (len : Nat) (s : St) :
     CtorVec.into_con_iter ⟨len⟩ s = .ok ⟨⟨len⟩, len, ⟨0⟩⟩ s ∧ CtorArr.into_con_iter ⟨len⟩ s = .ok ⟨⟨len⟩, ⟨0⟩⟩ s := ⟨rfl, rfl⟩
 
+/-- the exact length the wrapper records for an iterator whose `size_hint()` is `(lo, hi)`: known only when the upper bound
+exists and equals the lower one -/
+def claimedLen (h : Nat × Option Nat) : Option Nat :=
+  match h.2 with
+  | some u => if h.1 = u then some h.1 else none
+  | none => none
+
+/-- **`ConIterOfIter::new` as in the source**: the length is recorded exactly when the size hint is exact (lower = upper),
+whatever the value (also `usize::MAX`); otherwise it is unknown. Both counters start at 0, `completed` is false, and
+`size_hint` is the only thing asked of the iterator — here, before it is shared. -/
+theorem iter_new (h : Nat × Option Nat) (s : St) :
+    NewIter.new ⟨h⟩ s = .ok ⟨⟨h⟩, claimedLen h, ⟨0⟩, ⟨0⟩, false⟩ s := by
+  obtain ⟨lo, hi⟩ := h
+  cases hi with
+  | none => rfl
+  | some u =>
+    by_cases e : lo = u <;>
+      simp [NewIter.new, claimedLen, bind, M.bind, pure, M.pure, m_size_hint, op_eq, e, m_into, NewCounter.new]
+
 end Orx.GenThms
